@@ -236,6 +236,7 @@ class Spec(PropSpec):
     model_name = "TV.Ports.Model+Dns"
     rule = ("ports scripts = bind(:0 / fixed, UDP / TCP, wildcard / localhost / unsupported address) / connect / poll / accept / "
             "drop / drop_half / crash+bounce commands on 1-3 hosts with an ephemeral range of 2-6 ports, every command polled once, "
+            "plus structured histories with several streams accepted from one listener inside the range, the listener and some of them dropped, then a wrap-around; "
             "tables listed after every step; dns scripts = up to 600 names registered and looked up in random order by name, "
             "literal, reverse and regex, IPv4 and IPv6, plus a 65537-name registration for the subnet-size guard; "
             "a ports case is non-trivial when the cursor wrapped (an ephemeral result not larger than the previous one) or a bind "
@@ -255,7 +256,9 @@ class Spec(PropSpec):
         ex = F.exhaustive_small_ports()
         if ctx.tier == "quick":
             ex = ctx.rng.sample(ex, 150)
+        nwrap = 90 if ctx.tier == "quick" else 900
         cases = ex + [F.gen_ports_script(ctx.rng) for _ in range(nports)]
+        cases += [F.gen_accept_wrap_script(ctx.rng) for _ in range(nwrap * (2 if ctx.escalate else 1))]
         cases += [F.gen_dns_script(ctx.rng) for _ in range(ndns)]
         cases.append(F.dns_bulk_case(False, 65538, [0, 1, 255, 256, 65534, 65535, 65536, 65537]))
         if ctx.tier != "quick":
